@@ -1,7 +1,9 @@
 //! Replay harness for C16 (the table store behaves like a keyed map) on the parts of SortedWritesTable / Database
 //! that no verifier reaches: a keyed map model is compared with the real table through the public API across
-//! staged inserts, staged removals, merges, and CLONES taken while writes are still pending.
-use egglog_core_relations::{ColumnId, Database, SortedWritesTable, Value};
+//! staged inserts, staged removals, merges, and CLONES taken while writes are still pending; after every step the point
+//! lookups, the full scan and every constraint kind (on the value column and on the sort column, through `refine` and
+//! through `fast_subset`) are compared with the model.
+use egglog_core_relations::{ColumnId, Constraint, Database, SortedWritesTable, Value};
 use egglog_numeric_id::NumericId;
 use std::collections::BTreeMap;
 
@@ -27,16 +29,57 @@ fn table() -> SortedWritesTable {
     )
 }
 
-fn check(db: &Database, t: egglog_core_relations::TableId, model: &BTreeMap<usize, usize>, what: &str) -> Result<(), String> {
+type Model = BTreeMap<usize, (usize, usize)>; // key -> (value, timestamp)
+
+fn keys_of(tab: &egglog_core_relations::WrappedTable, sub: egglog_core_relations::Subset) -> Vec<usize> {
+    let buf = tab.scan(sub.as_ref());
+    let mut ks: Vec<usize> = buf.non_stale().map(|(_, row)| row[0].index()).collect();
+    ks.sort();
+    ks
+}
+
+fn check(db: &Database, t: egglog_core_relations::TableId, model: &Model, what: &str) -> Result<(), String> {
     let tab = db.get_table(t);
     if tab.len() != model.len() {
         return Err(format!("{what}: len() = {}, model has {}", tab.len(), model.len()));
     }
     for k in 0..6usize {
         let got = tab.get_row(&[v(k)]).map(|r| r.vals[1].index());
-        let want = model.get(&k).copied();
+        let want = model.get(&k).map(|x| x.0);
         if got != want {
             return Err(format!("{what}: get_row({k}) value = {got:?}, model says {want:?}"));
+        }
+    }
+    let all = keys_of(tab, tab.refine_live(tab.all()));
+    let want_all: Vec<usize> = model.keys().copied().collect();
+    if all != want_all {
+        return Err(format!("{what}: full scan gives keys {all:?}, model has {want_all:?}"));
+    }
+    // every constraint kind on the value column (1) and on the sort column (2), constants around the stored values
+    for col in [1usize, 2] {
+        let consts: Vec<usize> = if col == 1 { vec![9, 10, 11, 20, 21, 30, 31] } else { (0..8).collect() };
+        for c in consts {
+            let cid = ColumnId::from_usize(col);
+            let cases: [(&str, Constraint, fn(usize, usize) -> bool); 5] = [
+                ("Eq", Constraint::EqConst { col: cid, val: v(c) }, |x, c| x == c),
+                ("Lt", Constraint::LtConst { col: cid, val: v(c) }, |x, c| x < c),
+                ("Gt", Constraint::GtConst { col: cid, val: v(c) }, |x, c| x > c),
+                ("Le", Constraint::LeConst { col: cid, val: v(c) }, |x, c| x <= c),
+                ("Ge", Constraint::GeConst { col: cid, val: v(c) }, |x, c| x >= c),
+            ];
+            for (name, cons, pred) in cases {
+                let want: Vec<usize> = model.iter().filter(|(_, vt)| pred(if col == 1 { vt.0 } else { vt.1 }, c)).map(|(k, _)| *k).collect();
+                let got = keys_of(tab, tab.refine(tab.refine_live(tab.all()), std::slice::from_ref(&cons)));
+                if got != want {
+                    return Err(format!("{what}: refine(col {col} {name} {c}) gives keys {got:?}, model says {want:?}"));
+                }
+                if let Some(fast) = tab.fast_subset(&cons) {
+                    let got = keys_of(tab, tab.refine_live(fast));
+                    if got != want {
+                        return Err(format!("{what}: fast_subset(col {col} {name} {c}) gives keys {got:?}, model says {want:?}"));
+                    }
+                }
+            }
         }
     }
     Ok(())
@@ -45,7 +88,7 @@ fn check(db: &Database, t: egglog_core_relations::TableId, model: &BTreeMap<usiz
 fn scenario(clone_at: usize) -> Result<(), String> {
     let mut db = Database::new();
     let t = db.add_table(table(), std::iter::empty(), std::iter::empty());
-    let mut model: BTreeMap<usize, usize> = BTreeMap::new();
+    let mut model: Model = BTreeMap::new();
     // a fixed little history: (op, key, value); ts grows with the step
     let ops: [(&str, usize, usize); 6] = [("ins", 1, 10), ("ins", 2, 20), ("ins", 1, 11), ("del", 2, 0), ("ins", 3, 30), ("ins", 2, 21)];
     for (step, (op, k, val)) in ops.iter().enumerate() {
@@ -59,7 +102,10 @@ fn scenario(clone_at: usize) -> Result<(), String> {
         let before = model.clone();
         match *op {
             "ins" => {
-                model.insert(*k, *val);
+                // the incoming row wins unless it carries the stored value (then nothing changes, old timestamp kept)
+                if model.get(k).map(|x| x.0) != Some(*val) {
+                    model.insert(*k, (*val, step));
+                }
             }
             _ => {
                 model.remove(k);
